@@ -288,11 +288,15 @@ def extract(src):
         raise Err("detect_change_type: expected `if not <previous_version>`")
     out.append("Definition c34_first_release_class : Z := %d." % cls)
     vs = {}
-    for st, a in ((b[1], a_cur), (b[2], a_prev)):
-        if not (isinstance(st, ast.Assign) and isinstance(st.targets[0], ast.Name)
-                and ast.unparse(st.value) == "Version(%s)" % a):
-            raise Err("detect_change_type: expected <x> = Version(<arg>) for both arguments, in order")
-        vs[a] = st.targets[0].id
+    for st in (b[1], b[2]):        # the two parses are independent: either order
+        if not (isinstance(st, ast.Assign) and len(st.targets) == 1 and isinstance(st.targets[0], ast.Name)
+                and isinstance(st.value, ast.Call) and _is_name(st.value.func, "Version")
+                and len(st.value.args) == 1 and not st.value.keywords
+                and isinstance(st.value.args[0], ast.Name) and st.value.args[0].id in (a_cur, a_prev)):
+            raise Err("detect_change_type: expected <x> = Version(<arg>) for both arguments")
+        vs[st.value.args[0].id] = st.targets[0].id
+    if set(vs) != {a_cur, a_prev}:
+        raise Err("detect_change_type: expected both arguments to be parsed with Version()")
     cur, prev = vs[a_cur], vs[a_prev]
     test, cls = guarded(b[3], "none test")
     if not (isinstance(test, ast.Compare) and len(test.ops) == 1 and type(test.ops[0]) in OP_CODE
@@ -302,7 +306,14 @@ def extract(src):
     out.append("Definition c34_none_class : Z := %d." % cls)
     rel = {}
     pads = []
-    for st, v in ((b[4], cur), (b[5], prev)):
+    for st in (b[4], b[5]):        # independent: either order
+        v = None
+        if isinstance(st, ast.Assign) and isinstance(st.value, ast.Subscript) \
+                and isinstance(st.value.value, ast.BinOp) and isinstance(st.value.value.left, ast.Attribute) \
+                and isinstance(st.value.value.left.value, ast.Name):
+            v = st.value.value.left.value.id
+        if v not in (cur, prev) or v in rel:
+            raise Err("detect_change_type: expected <r> = (<v>.release + (0, ..))[:n] for both versions")
         ok = (isinstance(st, ast.Assign) and isinstance(st.targets[0], ast.Name)
               and isinstance(st.value, ast.Subscript) and isinstance(st.value.slice, ast.Slice)
               and st.value.slice.lower is None and st.value.slice.step is None
